@@ -32,6 +32,8 @@ var (
 	ErrClosed   = types.ErrClosed
 
 	DefaultSegmentSize = 64 * 1024 * 1024
+
+	errMetaDiverged = errors.New("WAL metadata on disk no longer matches memory after a failed update, reopen required")
 )
 
 var (
@@ -43,6 +45,11 @@ var (
 // WAL is a write-ahead log suitable for github.com/hashicorp/raft.
 type WAL struct {
 	closed uint32 // atomically accessed to keep it first in struct for alignment.
+
+	// metaDiverged is set (atomically) when a metadata transaction was persisted
+	// but could neither be completed nor undone. Writes are refused from then on
+	// until the WAL is reopened.
+	metaDiverged uint32
 
 	dir         string
 	codec       Codec
@@ -300,6 +307,20 @@ func (w *WAL) mutateStateLocked(tx stateTxn) error {
 
 	if postCommit != nil {
 		if err := postCommit(); err != nil {
+			// newS is already persisted but we can't use it (e.g. the new tail file
+			// could not be created). Persist the state we keep using again so that a
+			// restart sees the same log our readers do and later appends land in a
+			// segment the metadata still lists. Keep the advanced nextSegmentID: a file
+			// with the abandoned ID may exist on disk.
+			rb := s.clone()
+			rb.nextSegmentID = newS.nextSegmentID
+			if rbErr := w.metaDB.CommitState(rb.Persistent()); rbErr != nil {
+				// Disk and memory disagree and we can't repair it. Appending now could
+				// acknowledge entries that a restart would not find.
+				atomic.StoreUint32(&w.metaDiverged, 1)
+				return fmt.Errorf("%w (restoring the previous metadata also failed: %v)", err, rbErr)
+			}
+			w.s.Store(&rb)
 			return err
 		}
 	}
@@ -440,6 +461,9 @@ func (w *WAL) StoreLogs(logs []*raft.Log) error {
 		return err
 	}
 	defer release()
+	if atomic.LoadUint32(&w.metaDiverged) == 1 {
+		return errMetaDiverged
+	}
 
 	// Verify monotonicity since we assume it
 	lastIdx := s.lastIndex()
@@ -555,6 +579,9 @@ func (w *WAL) DeleteRange(min uint64, max uint64) error {
 		return err
 	}
 	defer release()
+	if atomic.LoadUint32(&w.metaDiverged) == 1 {
+		return errMetaDiverged
+	}
 
 	// Work out what type of truncation this is.
 	first, last := s.firstIndex(), s.lastIndex()
